@@ -17,7 +17,7 @@ META = {
                   "property incl. removal by None); chains of 3 operations with three independent symbolic clocks; SCO-locked properties; every "
                   "versionable class of both versions as real objects and as dictionaries under 8 clock offsets x 4 old instants (selector-enumerated); "
                   "precision wiring of every modified/created slot by z3.",
-    "level_text_more": 'Also: 11 object-level and granular marking operations as versioning operations (8 clock offsets x 4 old instants x object/dict x 2.0/2.1 x revoked): strictly later modified, identity and non-marking content kept, original incl. its marking lists untouched, refused on revoked objects. Objects carrying custom content in 5 ways are versionable through 6 operations; object methods as well as module functions.',
+    "level_text_more": 'Also: 11 object-level and granular marking operations as versioning operations (8 clock offsets x 4 old instants x object/dict x 2.0/2.1 x revoked): strictly later modified, identity and non-marking content kept, original incl. its marking lists untouched, refused on revoked objects. Objects carrying custom content in 5 ways are versionable through 6 operations; object methods as well as module functions. Rounds 5-6: change sets through custom_properties; legal changes to other objects after every SCO case (no lock survives a call); content as dict / OrderedDict / dict subclass / UserDict x revoked shapes with and without `modified`.',
     "level_note": "Stubs: symbolic clock; truncation model for parse_into_datetime inside versioning (C15 justifies it); opaque message formatting. "
                   "Instants are bounded to a 2-5 s window at microsecond resolution (arithmetic is translation-invariant but that is not proved). "
                   "Real-object obligation is selector-enumerated over tables of offsets.",
